@@ -7,12 +7,14 @@ with byte-identical stdout.
 from __future__ import annotations
 
 import io
+import warnings
 import os
 import re
 import signal
 import sys
 import time
 
+warnings.filterwarnings("ignore", category=SyntaxWarning)
 INTROSPECTIVE = re.compile(r"<function |<class |<module | object at 0x|<built-in |<bound method |<generator |<lambda>|<code object")
 SHIMS = os.path.join(os.path.dirname(os.path.dirname(os.path.abspath(__file__))), "shims")
 
